@@ -77,8 +77,8 @@ Insert(id, v, m) ==
      /\ l1a'   = L1Remove(l0, id)
      /\ dok'   = (dok /\ (emerg => KVof(c0) = KVof(canon)))
      /\ sok'   = (sok /\ Cardinality(HotIds(hot')) <= Hard)
-     /\ Log(Rec("insert", [id |-> id, v |-> v, m |-> m]))
      /\ UNCHANGED <<npokes, rok>>
+     /\ Log(Rec("insert", [id |-> id, v |-> v, m |-> m]))
 
 \* bulk_load_cold_tier: canonical write that bypasses the mirror; the mirror entry of the id is evicted
 \* (before the fix of F14 it was left in place and went stale)
@@ -86,15 +86,15 @@ BulkLoad(id, v, m) ==
   /\ canon' = [canon EXCEPT ![id] = [p |-> TRUE, v |-> v, m |-> m, ver |-> IF canon[id].p THEN canon[id].ver + 1 ELSE 1]]
   /\ l1a' = L1Remove(l1a, id)
   /\ hot' = [hot EXCEPT ![id] = HAbsent]
-  /\ Log(Rec("bulkload", [id |-> id, v |-> v, m |-> m]))
   /\ UNCHANGED <<npokes, rok, dok, sok>>
+  /\ Log(Rec("bulkload", [id |-> id, v |-> v, m |-> m]))
 
 Delete(id) ==
   /\ canon' = [canon EXCEPT ![id] = CAbsent]
   /\ hot'   = [hot EXCEPT ![id] = HAbsent]
   /\ l1a'   = IF canon[id].p \/ hot[id].p THEN L1Remove(l1a, id) ELSE l1a
-  /\ Log(Rec("delete", [id |-> id]))
   /\ UNCHANGED <<npokes, rok, dok, sok>>
+  /\ Log(Rec("delete", [id |-> id]))
 
 BatchDelete(ids) ==
   LET S == Range(ids) IN
@@ -102,14 +102,14 @@ BatchDelete(ids) ==
   /\ hot'   = [i \in Ids |-> IF i \in S THEN HAbsent ELSE hot[i]]
   /\ l1a'   = IF \E i \in S : canon[i].p \/ hot[i].p
               THEN SelectSeq(l1a, LAMBDA e : e.id \notin S) ELSE l1a
-  /\ Log(Rec("bdelete", [ids |-> ids]))
   /\ UNCHANGED <<npokes, rok, dok, sok>>
+  /\ Log(Rec("bdelete", [ids |-> ids]))
 
 UpdateMeta(id, m, mg) ==
   /\ canon' = IF canon[id].p THEN [canon EXCEPT ![id].m = IF mg THEN Merge(@, m) ELSE m] ELSE canon
   /\ hot'   = IF canon[id].p /\ hot[id].p THEN [hot EXCEPT ![id].m = IF mg THEN Merge(@, m) ELSE m] ELSE hot
-  /\ Log(Rec("umeta", [id |-> id, m |-> m, merge |-> mg]))
   /\ UNCHANGED <<l1a, npokes, rok, dok, sok>>
+  /\ Log(Rec("umeta", [id |-> id, m |-> m, merge |-> mg]))
 
 (************************** drains and audits ******************************)
 Flush ==
@@ -117,15 +117,15 @@ Flush ==
   /\ hot'   = EmptyHot
   /\ l1a'   = DrainL1(l1a, canon, hot)
   /\ dok'   = (dok /\ KVof(canon') = KVof(canon))
-  /\ Log(Rec("flush", [force |-> TRUE]))
   /\ UNCHANGED <<npokes, rok, sok>>
+  /\ Log(Rec("flush", [force |-> TRUE]))
 
 Audit ==
   LET stale == { i \in Ids : hot[i].p /\ ~Match(canon, i, hot[i].v, hot[i].tv, hot[i].tp) } IN
   /\ hot' = [i \in Ids |-> IF i \in stale THEN HAbsent ELSE hot[i]]
   /\ l1a' = SelectSeq(l1a, LAMBDA e : e.id \notin stale)
-  /\ Log(Rec("audit", <<>>))
   /\ UNCHANGED <<canon, npokes, rok, dok, sok>>
+  /\ Log(Rec("audit", <<>>))
 
 (******************************* readers ***********************************)
 \* what the hot-tier stage of a read does: serve / scrub / pass
@@ -155,8 +155,8 @@ Query(id, admit) ==
                        IN IF canon[id].p /\ admit
                           THEN L1Put(l2, [id |-> id, v |-> canon[id].v, tv |-> canon[id].ver, tp |-> canon[id].v])
                           ELSE l2
-     /\ Log(Rec("read", [id |-> id, flav |-> "get"]))
      /\ UNCHANGED <<canon, npokes, dok, sok>>
+     /\ Log(Rec("read", [id |-> id, flav |-> "get"]))
 
 \* get_embedding_cache_aware(): peek L1a -> hot -> cold, no admission
 Aware(id) ==
@@ -169,8 +169,8 @@ Aware(id) ==
                     /\ ((~l1ok /\ hs.served) => canon[id].p /\ hs.v = canon[id].v))
      /\ hot' = IF ~l1ok /\ hs.scrub THEN [hot EXCEPT ![id] = HAbsent] ELSE hot
      /\ l1a' = IF ~l1ok /\ hs.scrub THEN L1Remove(l0, id) ELSE l0
-     /\ Log(Rec("read", [id |-> id, flav |-> "aware"]))
      /\ UNCHANGED <<canon, npokes, dok, sok>>
+     /\ Log(Rec("read", [id |-> id, flav |-> "aware"]))
 
 \* get_document_with_metadata / bulk_query: metadata from canon, vector via hot stage
 ViaHot(id, flav) ==
@@ -178,27 +178,36 @@ ViaHot(id, flav) ==
   /\ rok' = (rok /\ ((canon[id].p /\ hs.served) => hs.v = canon[id].v))
   /\ hot' = IF hs.scrub THEN [hot EXCEPT ![id] = HAbsent] ELSE hot
   /\ l1a' = IF hs.scrub THEN L1Remove(l1a, id) ELSE l1a
-  /\ Log(Rec("read", [id |-> id, flav |-> flav]))
   /\ UNCHANGED <<canon, npokes, dok, sok>>
+  /\ Log(Rec("read", [id |-> id, flav |-> flav]))
+
+\* bulk_query over every id (the replay always asks for all ids): the hot stage of each id, as in ViaHot
+BulkAll ==
+  LET scr == { i \in Ids : HotStage(i).scrub } IN
+  /\ rok' = (rok /\ \A i \in Ids : (canon[i].p /\ HotStage(i).served) => HotStage(i).v = canon[i].v)
+  /\ hot' = [i \in Ids |-> IF i \in scr THEN HAbsent ELSE hot[i]]
+  /\ l1a' = SelectSeq(l1a, LAMBDA e : e.id \notin scr)
+  /\ UNCHANGED <<canon, npokes, dok, sok>>
+  /\ Log(Rec("read", [id |-> 1, flav |-> "bulk"]))
 
 \* get_metadata / exists: canonical store only
 CanonOnly(id, flav) ==
-  /\ Log(Rec("read", [id |-> id, flav |-> flav]))
   /\ UNCHANGED <<canon, hot, l1a, npokes, rok, dok, sok>>
+  /\ Log(Rec("read", [id |-> id, flav |-> flav]))
 
 (******************************** pokes ************************************)
 PokeL1a(id, v, tv, tp) ==
   /\ npokes < MaxPokes /\ npokes' = npokes + 1
   /\ l1a' = L1Put(l1a, [id |-> id, v |-> v, tv |-> tv, tp |-> tp])
-  /\ Log(Rec("poke_l1a", [id |-> id, v |-> v, tv |-> tv, tp |-> tp]))
   /\ UNCHANGED <<canon, hot, rok, dok, sok>>
+  /\ Log(Rec("poke_l1a", [id |-> id, v |-> v, tv |-> tv, tp |-> tp]))
 
 PokeHot(id, v, m, tv, tp) ==
   /\ npokes < MaxPokes /\ npokes' = npokes + 1
   /\ (AllowOrphan \/ canon[id].p)
   /\ hot' = [hot EXCEPT ![id] = [p |-> TRUE, v |-> v, m |-> m, tv |-> tv, tp |-> tp]]
-  /\ Log(Rec("poke_hot", [id |-> id, v |-> v, m |-> m, tv |-> tv, tp |-> tp]))
   /\ UNCHANGED <<canon, l1a, rok, dok, sok>>
+  /\ Log(Rec("poke_hot", [id |-> id, v |-> v, m |-> m, tv |-> tv, tp |-> tp]))
 
 (***************************************************************************)
 GenMetas == { [k1 |-> 0, k2 |-> 0], [k1 |-> 1, k2 |-> 0], [k1 |-> NVal, k2 |-> 1] }
@@ -220,7 +229,8 @@ Step ==
      \/ Audit
      \/ \E id \in Ids, a \in BOOLEAN : Query(id, a)
      \/ \E id \in Ids : Aware(id)
-     \/ \E id \in Ids, f \in {"getwm", "bulk"} : ViaHot(id, f)
+     \/ \E id \in Ids : ViaHot(id, "getwm")
+     \/ BulkAll
      \/ \E id \in Ids, f \in {"getmeta", "exists"} : CanonOnly(id, f)
      \/ \E id \in Ids, v \in Vecs, tv \in TokVers, tp \in Vecs : PokeL1a(id, v, tv, tp)
      \/ \E id \in Ids, v \in Vecs, m \in GenMetas, tv \in TokVers, tp \in Vecs : PokeHot(id, v, m, tv, tp)
